@@ -45,15 +45,30 @@ def _pad_list_build(k: Kernel, fn: ast.FunctionDef) -> str:
     # is the list reversed afterwards?
     reversed_flag = False
     for st in fn.body:
-        if isinstance(st, ast.Assign) and ast.unparse(st.targets[0]) == "pad":
+        if st is loop:
+            continue
+        mentions_pad = any(isinstance(n, ast.Name) and n.id == "pad" for n in ast.walk(st))
+        if not mentions_pad:
+            continue
+        text = ast.unparse(st).replace(" ", "")
+        if isinstance(st, (ast.Assign, ast.AnnAssign)) and ast.unparse(
+                st.targets[0] if isinstance(st, ast.Assign) else st.target) == "pad":
             v = ast.unparse(st.value).replace(" ", "")
-            if v == "pad[::-1]" or v == "list(reversed(pad))":
-                reversed_flag = True
-            elif v != "[]":
+            if v in ("pad[::-1]", "list(reversed(pad))", "list(pad[::-1])", "tuple(reversed(pad))", "tuple(pad[::-1])"):
+                reversed_flag = not reversed_flag
+            elif v not in ("[]", "list()"):
                 raise Untranslatable(f"unexpected assignment `pad = {v}`")
+        elif text == "pad.reverse()":
+            reversed_flag = not reversed_flag
+        elif "functional.pad(" in text or "F.pad(" in text:
+            continue
+        else:
+            # any other use of `pad` (a construct we do not understand) -> do not guess
+            raise Untranslatable(f"unexpected statement using `pad`: `{ast.unparse(st)[:80]}`")
     # F.pad call must receive `pad`
-    ok = any(isinstance(n, ast.Call) and ast.unparse(n.func).endswith("functional.pad") and len(n.args) >= 2
-             and ast.unparse(n.args[1]) == "pad" for n in ast.walk(fn))
+    ok = any(isinstance(n, ast.Call) and (ast.unparse(n.func).endswith("functional.pad") or ast.unparse(n.func) == "F.pad")
+             and ((len(n.args) >= 2 and ast.unparse(n.args[1]) == "pad")
+                  or any(kw.arg == "pad" and ast.unparse(kw.value) == "pad" for kw in n.keywords)) for n in ast.walk(fn))
     if not ok:
         raise Untranslatable("call `torch.nn.functional.pad(input_image, pad, …)` not found")
     body = "\n".join("    " + l for l in lets)
